@@ -202,7 +202,7 @@ func GenerateMultipart(r *lp.Rng, index int) *Design {
 			{Name: "title", Att: &Att{Type: &Type{Prim: "String"}}},
 			{Name: "qty", Att: a}}}, Required: []string{"file"}}
 		if required {
-			p.Required = append(p.Required, "v")
+			p.Required = append(p.Required, "qty")
 		}
 		m := &Method{Name: name, Payload: p, Multipart: true, HTTP: &HTTPMap{Verb: "POST", Path: "/" + name}}
 		if loc == "query" {
@@ -223,6 +223,12 @@ func GenerateMultipart(r *lp.Rng, index int) *Design {
 	for _, p := range []string{"String", "Int", "Float64", "Boolean"} {
 		add("query_map_"+lower(p), &Att{Type: &Type{MapKey: &Att{Type: &Type{Prim: "String"}}, MapElem: &Att{Type: &Type{Prim: p}}}}, "query", false)
 		add("query_maparr_"+lower(p), &Att{Type: &Type{MapKey: &Att{Type: &Type{Prim: "String"}}, MapElem: &Att{Type: &Type{Array: &Att{Type: &Type{Prim: p}}}}}}, "query", false)
+	}
+	if index%2 == 1 {
+		// a second service with a multipart endpoint: both services contribute to the example's multipart.go
+		d.Services = append(d.Services, &Service{Name: "down", Methods: []*Method{{Name: "send", Multipart: true,
+			Payload: &Att{Type: &Type{IsObject: true, Object: []*Field{{Name: "file", Att: &Att{Type: &Type{Prim: "Bytes"}}}}}, Required: []string{"file"}},
+			HTTP:    &HTTPMap{Verb: "POST", Path: "/send"}}}})
 	}
 	_ = r
 	return d
